@@ -3,6 +3,7 @@ CONSTANTS MaxDepth = 3
   Families <- FamSim
   StoreByCopy = TRUE
   TailKeepsSets = TRUE
+  SplitContinues = TRUE
 INVARIANT SeenIsExpected
 INVARIANT PrefixOnly
 INVARIANT SiblingIndependent
